@@ -1,6 +1,8 @@
 package props
 
 import (
+	"strings"
+	"bytes"
 	"context"
 	"errors"
 	"fmt"
@@ -35,6 +37,9 @@ type c13Case struct {
 	Class   string `json:"class,omitempty"` // retryable class for backoff
 	Queue   int    `json:"queue"`
 	FlushMS int    `json:"flush_ms"`
+	// Companion: another request (its own, live context) for another row of the table is already
+	// stuck in the same state when the request under test is issued
+	Companion bool `json:"companion,omitempty"`
 }
 
 func c13Valid(c c13Case) bool {
@@ -71,6 +76,13 @@ type c13Result struct {
 func c13Run(c c13Case) Outcome {
 	var o Outcome
 	res := inBubble(theT, func() { o = c13RunInBubble(c) })
+	if res.Frozen != "" && c.Companion && strings.Contains(res.Frozen, "github.com/tsuna/gohbase") {
+		// in these states (ZooKeeper / meta / probe / refused dial with a second request waiting) nothing in
+		// the client holds a lock across a wait: a goroutine parked on a client mutex for 40 s of real time
+		// is a request waiting, uninterruptibly, for whatever the other request is stuck in
+		return viol("client-stuck@mutex/"+c.State, "a request is parked on a lock of the client while another request is stuck in state %s; "+
+			"a mutex wait cannot be cancelled:\n%s", c.State, res.Frozen)
+	}
 	if o, stuck := stuckVerdict(res); stuck {
 		return o
 	}
@@ -234,6 +246,15 @@ func c13RunInBubble(c c13Case) (out Outcome) {
 	}
 	defer endCancel()
 
+	if c.Companion {
+		// (the other region of the table when there are two servers, else another row)
+		ck := evid.B("zz")
+		if bytes.Compare(c.Key, []byte("m")) >= 0 {
+			ck = evid.B("aa")
+		}
+		go doOp(client, context.Background(), "t", opSpec{Kind: "get", Key: ck, Marker: "mkcompanion"})
+		synctest.Wait()
+	}
 	var r c13Result
 	done := make(chan struct{})
 	switch c.Entry {
@@ -529,6 +550,10 @@ func c13Gen(t *rapid.T) c13Case {
 	}
 	c.State = rapid.SampledFrom(states).Draw(t, "state")
 	c13Fill(t, &c)
+	switch c.State {
+	case "zk", "meta", "probe", "dialrefused":
+		c.Companion = rapid.Bool().Draw(t, "companion")
+	}
 	return c
 }
 
@@ -539,7 +564,7 @@ func TestC13_Cancellation(t *testing.T) {
 			"{ZooKeeper lookup held, meta scan held, region probe held, dial refused repeatedly, n-th retry back-off "+
 			"sleep n=1..8, busy send queue, silent server, response of one call held}) x (which context: the call's, the "+
 			"batch's, a single call's inside a batch) x (cancel, deadline), with drawn batch shapes, keys, queue/flush "+
-			"settings and retryable classes. Virtual time: the state is confirmed through the simulated cluster before the "+
+			"settings and retryable classes; optionally another request with a live context is already stuck in the same state. Virtual time: the state is confirmed through the simulated cluster before the "+
 			"context ends; the API call must have returned at the next quiescence point (<= 100 virtual ms) with an "+
 			"error wrapping the context error; a batch returns ok=false with the unfinished calls failed. Non-trivial = "+
 			"the targeted state was confirmed at the instant the context ended; distinct by case hash")
